@@ -552,7 +552,7 @@ def main(argv=None):
                   "theorem": "C15_step / C15_raise_unchanged (coq/theories/Properties/C15.v)"}
         rep.violation(signature(small, code), replay, no_input=(code == 1 and False))
 
-    if broken and rep.violations == 0 and not rep.known:
+    if broken and rep.violations == 0:      # known findings never hide a broken obligation
         rep.violation({"broken": True}, {"broken_obligations": broken,
                       "note": "proof obligation or correspondence machinery no longer checks; no failing input found"},
                       no_input=True)
